@@ -9,6 +9,16 @@ import threading
 from sim.core import HarnessError, h64
 
 
+def _writes_shared_state(code):
+    import dis
+    if code.co_name in ('__init__', '__new__', '__setstate__', '__init_subclass__'):
+        return False  # writes to an object no other thread has yet
+    for ins in dis.get_instructions(code):
+        if ins.opname in ('STORE_ATTR', 'STORE_GLOBAL', 'DELETE_ATTR'):
+            return True
+    return False
+
+
 class _Abort(BaseException):
     pass
 
@@ -29,7 +39,9 @@ class _TS:
 class Baton:
     WAIT = 120
 
-    def __init__(self, decider, p_preempt, stats, prefixes, max_switches=4000):
+    STALL_BUDGETS = (4, 15, 60, 250, 1000)
+
+    def __init__(self, decider, p_preempt, stats, prefixes, max_switches=4000, hot_weight=1, stall_gap=0):
         self.decider = decider
         self.p = p_preempt
         self.stats = stats
@@ -46,17 +58,38 @@ class Baton:
         self.trace_sig = 0
         self.error = None
         self.lines = 0
+        # lines of functions that write attributes or globals (where shared state is published) count hot_weight
+        # times towards the next pre-emption: the schedule search is biased to the windows between two writes
+        self.hot_weight = max(1, int(hot_weight))
+        self._hot = {}
+        self.hot_lines = 0
         self.gap = max(2, int(2 / max(p_preempt, 1e-3)))
         self.countdown = self.decider.decide(self.gap)
+        # stalled-thread mode (a "slow node"): every so many lines of state-writing functions the running thread is
+        # parked *inside* that function while the others run on for a decided number of their lines; once woken it runs
+        # a decided, short burst of lines and is parked again. Deep windows (A stopped between two of its writes while B
+        # completes whole calls) are reached with few decisions instead of a lucky run of per-line coin flips.
+        self.stall_gap = int(stall_gap)
+        self.stalled = {}
+        self.stalls = 0
+        self.burst_tid = None
+        self.burst = 0
+        self.stall_cd = self.decider.decide(self.stall_gap) if self.stall_gap else 0
 
     # -- bookkeeping
-    def _runnable(self):
-        out = []
-        for tid in sorted(self.threads):
-            t = self.threads[tid]
-            if t.started and not t.done and (t.cond is None or t.cond()):
-                out.append(tid)
-        return out
+    def _runnable(self, exclude=None):
+        while True:
+            out = []
+            for tid in sorted(self.threads):
+                t = self.threads[tid]
+                if t.started and not t.done and (t.cond is None or t.cond()) and tid not in self.stalled:
+                    out.append(tid)
+            if self.stalled and not [t for t in out if t != exclude]:
+                # nothing else can run: the stalled thread with the least remaining budget wakes up
+                tid = min(self.stalled, key=lambda k: (self.stalled[k], k))
+                del self.stalled[tid]
+                continue
+            return out
 
     def _note(self, frm, to, where):
         self.switches += 1
@@ -90,7 +123,7 @@ class Baton:
         me.cond = cond
         try:
             while not cond():
-                r = [t for t in self._runnable() if t != me.tid]
+                r = [t for t in self._runnable(exclude=me.tid) if t != me.tid]
                 if not r:
                     self.abort = True
                     raise HarnessError('baton: deadlock, nothing is runnable')
@@ -144,14 +177,76 @@ class Baton:
     def _trace(self, frame, event, arg):
         if event != 'call':
             return None
-        fn = frame.f_code.co_filename
-        if fn.startswith(self.prefixes):
+        code = frame.f_code
+        if code.co_filename.startswith(self.prefixes):
+            if self.hot_weight > 1 or self.stall_gap:
+                hot = self._hot.get(code)
+                if hot is None:
+                    hot = self._hot[code] = _writes_shared_state(code)
+                if hot:
+                    return self._local_hot
             return self._local
         return None
+
+    def _local_hot(self, frame, event, arg):
+        if event == 'line':
+            self.lines += 1
+            self.hot_lines += 1
+            if self.stall_gap and self._stall_step(frame, True):
+                return self._local_hot
+            self.countdown -= self.hot_weight
+            if self.countdown < 0:
+                self.countdown = self.decider.decide(self.gap) if self.switches < self.max_switches else 10 ** 9
+                self.yield_point(frame.f_code.co_name)
+        return self._local_hot
+
+    def _stall_step(self, frame, hot):
+        '''Stalled-thread bookkeeping at a line event of the running thread; True if it switched.'''
+        if self.switches >= self.max_switches:
+            return False
+        cur = self.current
+        me = self.threads[cur]
+        if self.stalled:
+            woke = None
+            for tid in sorted(self.stalled):
+                self.stalled[tid] -= 1
+                if self.stalled[tid] <= 0:
+                    del self.stalled[tid]
+                    if woke is None:
+                        woke = tid
+            if woke is not None:
+                t = self.threads[woke]
+                if t.started and not t.done and (t.cond is None or t.cond()):
+                    self.burst_tid = woke
+                    self.burst = self.decider.decide(4)
+                    self._switch_to(me, woke, 'wake')
+                    return True
+        stall = False
+        if self.burst_tid == cur:
+            if self.burst <= 0:
+                self.burst_tid = None
+                stall = True
+            else:
+                self.burst -= 1
+        elif hot:
+            self.stall_cd -= 1
+            if self.stall_cd < 0:
+                self.stall_cd = self.decider.decide(self.stall_gap)
+                stall = True
+        if stall:
+            r = [t for t in self._runnable(exclude=cur) if t != cur]
+            if r:
+                self.stalled[cur] = self.STALL_BUDGETS[self.decider.decide(len(self.STALL_BUDGETS))]
+                self.stalls += 1
+                self._switch_to(me, r[self.decider.decide(len(r))], 'stall:' + frame.f_code.co_name)
+                return True
+        return False
 
     def _local(self, frame, event, arg):
         if event == 'line':
             self.lines += 1
+            if self.stall_gap and (self.stalled or self.burst_tid is not None) and self._stall_step(frame, False):
+                return self._local
             self.countdown -= 1
             if self.countdown < 0:
                 # one decision = how many traced lines run before the next pre-emption point
